@@ -38,6 +38,12 @@ var libShapes = []string{
 func libArrayCase(r *prng.R) (prog, doc, kind string) {
 	doc = `{"s":"a,b","t":"é😀 x","n":12.5,"mixed":[{"k":1},{},{"k":"a"},{},{"k":2}],"gaps":[{},{"k":"b"},{},{"k":"a"},{"k":true},{}]}`
 	if r.Intn(40) == 0 {
+		// ranges whose size does not fit any integer: the size error, not a panic
+		prog = r.Pick("[0..1e19]", "[-5e18..5e18]", "[1..1e300]", "[1,2,3][[0..1e19]]", "[-1e19..1e19]", "[9223372036854775807..9223372036854775808]", "$count([0..1e19])", "[1..1e19].($)", "[0..9.3e18]",
+			"[-9223372036854775808..9223372036854775807]", "[1e18..1e19]", "[0..1e15]")
+		return prog, doc, "library-built-value:huge-range"
+	}
+	if r.Intn(40) == 0 {
 		// pictures far beyond ordinary sizes: an error or a value, never a hang
 		n := r.Pick("1", "5", "1e308", "1e-300", "-7.5", "0")
 		pic := r.Pick(`$pad("", 309, "0") & "e0"`, `$pad("", 320, "0") & ".0e00"`, `$pad("", 308, "0") & "e0"`, `$pad("", 400, "#") & "0e0"`, `"0." & $pad("", 400, "0") & "e0"`, `$pad("", 350, "0")`, `$pad("", 330, "0") & "%"`, `"0e" & $pad("", 400, "0")`)
